@@ -117,8 +117,12 @@ class System:
 
     def make_enforcer(self):
         P = self.P
+        # the default rule is the registered policy svc:plain (which files
+        # may redefine): names no layer defines - svc:extra at times - are
+        # decided by it
         conf = world.new_conf(self.w.root, policy_dirs=[D1, 'd2'],
-                              enforce_new_defaults=False)
+                              enforce_new_defaults=False,
+                              policy_default_rule='svc:plain')
         enf = P.Enforcer(conf)
         enf.suppress_deprecation_warnings = True
         enf.register_defaults(defaults(P))
